@@ -58,6 +58,8 @@ CONTENTS = {
     # one root defined explicitly and in attrpath form (legal Nix; merged by the evaluator)
     "set-and-attrpath": "{\n  a = {\n    x = 1;\n  };\n  a.b = 2;\n  k = 1;\n}",
     "set-and-attrpath-deep": "{\n  s = {\n    k = true;\n  };\n  s.t.u = 4;\n  z = 5;\n}",
+    # an attrpath family inside an explicitly written nested set
+    "nested-attrpath": "{\n  a = 1;\n  m = {\n    x.y = 1;\n    k = 2;\n  };\n}",
     "twins": "{\n  z = 0;\n  a.enable = true;\n  b.enable = true;\n  enable = true;\n  m.x = 1;\n}",
     "twins-inline": "{ a.enable = true; b.enable = true; c.enable = true; }",
 }
@@ -67,7 +69,7 @@ PATHS = ["a.enable", "b.enable", "c.enable", "enable", "@lib.v", "@w.v", "a", "b
          "@a", "@@a", "@m.x",
          # later members of deep attrpath families, fresh leaves in them, and the paths a mis-merged tree would answer to
          "m.n.y", "m.y", "m.n.z", "s.n.v.m.b", "s.n.v.m.c", "s.n.v.b", "s.n.w", "@@@u", "s.n.p", "s.h.a",
-         "a.b", "a.x", "s.t.u", "s.k", "s.t", "@lib", "@n", "@@@n"]
+         "a.b", "a.x", "s.t.u", "s.k", "s.t", "@lib", "@n", "@@@n", "m.x.y", "m.x.z", "m.k"]
 VALUES = ["2", '"s"', "[ 1 2 ]", "{ k = 1; }", "v", "{", "1 2", ""]
 
 
@@ -80,7 +82,7 @@ def documents(tier):
                 continue
             if c.startswith("twins") and w not in ("bare", "let", "let-twins", "lambda-call", "rec"):
                 continue
-            if c.startswith("set-and-attrpath") and w not in ("bare", "lambda", "let"):
+            if (c.startswith("set-and-attrpath") or c == "nested-attrpath") and w not in ("bare", "lambda", "let"):
                 continue
             if w in ("let-inherit", "let3-alike") and c not in ("flat", "attrpath", "comments", "inline"):
                 continue
@@ -203,14 +205,14 @@ def model_rm(tree, names, *, attrpath_roots=(), prefixes=()):
     if names[-1] not in t:
         raise Refuse("missing key")
     del t[names[-1]]
-    # an attrpath parent left empty is pruned
-    if names[0] in attrpath_roots:
-        for depth in range(len(names) - 2, -1, -1):
-            parent, key = chain[depth], names[depth]
-            if isinstance(parent.get(key), dict) and not parent[key]:
-                del parent[key]
-            else:
-                break
+    # an attrpath parent left empty is pruned (a parent that is written as a set of its own stays, even when empty)
+    for depth in range(len(names) - 2, -1, -1):
+        parent, key = chain[depth], names[depth]
+        derived = tuple(names[: depth + 1]) in prefixes if prefixes else names[0] in attrpath_roots
+        if derived and isinstance(parent.get(key), dict) and not parent[key]:
+            del parent[key]
+        else:
+            break
 
 
 def apply_model(text, op, path, value):
